@@ -306,23 +306,57 @@ for _n, _c in CASES.items():
     unit('C03', 'roundtrip.' + _n, FUNCS, replay='contracts.C03:replay', max_paths=20000)(roundtrip(_c))
 
 
-@unit('C03', 'unset-optional-field', FUNCS)
+@unit('C03', 'unset-optional-field', FUNCS, replay='contracts.C03:replay_unset')
 def unset_optional(h):
+    """An optional field left unset (None), of any of the six shapes: writing it stores nothing and reading it back gives an
+    unset value again - None, or a species-indexed value without any species - never numbers; a required field left unset
+    is refused."""
     I, Species, TM, sp, tm, dm, Dimensions = enums(h)
     st = make_store_obj(h)
-    pt = h.choice(2) == 1
-    field = FieldStub(I.call(Dimensions, [dm['TRAJECTORY']] + ([dm['POINT']] if pt else []), {}), required=False)
-    var = NcVar(I, None, None, vlen=pt)
+    shape = ['T', 'TP', 'TS', 'TSP', 'TM', 'TSM'][h.choice(6)]
+    h.ctx.named['shape'] = z3.StringVal(shape)
+    dims = [dm['TRAJECTORY']] + ([dm['SPECIES']] if 'S' in shape else []) + ([dm['THRUST_MODE']] if 'M' in shape else []) + \
+        ([dm['POINT']] if 'P' in shape else [])
+    field = FieldStub(I.call(Dimensions, dims, {}), required=False)
+    file_species = [sp['CO2'], sp['NOx']] if 'S' in shape else []
+    var = NcVar(I, len(file_species) if 'S' in shape else None, len(tm) if 'M' in shape else None, vlen='P' in shape)
     row = h.int('row')
-    h.method(st, '_write_to_nc_var', var, row, 'opt', field, None)
-    got = h.method(st, '_read_from_nc_var', var, row, 'opt', field, [])
-    h.ensure('unset-optional-field-reads-back-unset', got is None)
+    h.method(st, '_write_to_nc_var', var, row, 'opt', field, None, file_species)
+    h.ensure('unset-optional-field-stores-nothing', not var.cells)
+    got = h.method(st, '_read_from_nc_var', var, row, 'opt', field, file_species)
+    is_unset = got is None or (isinstance(got, Obj) and got.cls.name == 'SpeciesValues' and len(got.attrs['_data']) == 0)
+    h.ensure('unset-optional-field-reads-back-unset', is_unset, note=repr(got))
     req = FieldStub(field.dims, required=True)
     try:
-        h.method(st, '_write_to_nc_var', var, row, 'req', req, None)
+        h.method(st, '_write_to_nc_var', var, row, 'req', req, None, file_species)
         h.fail('missing-required-value-is-refused', 'accepted')
     except PyExc as e:
         h.ensure('missing-required-value-is-refused', h.exc_is(e, 'ValueError'))
+
+
+@unit('C03', 'container.species-of-a-trajectory', ['AEIC.storage.container:Container.species'], replay='contracts.C03:replay_unset')
+def container_species(h):
+    """Container.species (what decides the species dimension of a new file): the sorted union of the species of the
+    species-indexed fields; an optional one that is unset (None) contributes nothing."""
+    I, Species, TM, sp, tm, dm, Dimensions = enums(h)
+    SV = I.lookup_fq('AEIC.types.species:SpeciesValues')
+    d_ts = I.call(Dimensions, [dm['TRAJECTORY'], dm['SPECIES']], {})
+    d_tsp = I.call(Dimensions, [dm['TRAJECTORY'], dm['SPECIES'], dm['POINT']], {})
+    d_tp = I.call(Dimensions, [dm['TRAJECTORY'], dm['POINT']], {})
+    a = subsets_by_choice(h, ['CO2', 'NOx', 'SO4'])
+    b_unset = h.choice(2) == 1
+    fields = {'plain': FieldStub(d_tp), 'per_species': FieldStub(d_ts), 'optional_per_species_per_point': FieldStub(d_tsp, required=False)}
+    data = {'plain': SArr.symbolic(h.ctx, 'p', 3), 'per_species': I.call(SV, [{sp[x]: h.real('v_' + x) for x in a}], {}),
+            'optional_per_species_per_point': None if b_unset else I.call(SV, [{sp['H2O']: SArr.symbolic(h.ctx, 'w', 3)}], {})}
+    c = h.new('AEIC.storage.container:Container', _partial=True, _data_dictionary=fields, _data=data)
+    try:
+        r = h.I.getattr(c, 'species')
+    except PyExc as e:
+        h.fail('no-internal-error', f'{e.inst!r} at {e.inst.where}')
+        return
+    order = [m.name for m in Species.members]
+    want = sorted(set(a) | (set() if b_unset else {'H2O'}), key=order.index)
+    h.ensure('species-are-the-sorted-union-of-the-set-fields', [m.name for m in r] == want, note=repr(r))
 
 
 # -------------------------------------------------------------------------------------------------
@@ -536,8 +570,13 @@ def load_npoints(h):
         fields = [fields[1], fields[0], fields[2]]
     # optional fields that were never set are stored as missing and read as None: the loaded trajectory must say None,
     # not whatever a fresh trajectory holds by default
-    if h.choice(2) == 1:
-        fields += [('unset_optional_scalar', FieldStub(d_t, required=False), None), ('unset_optional_points', FieldStub(d_tp, required=False), None)]
+    where = h.choice(3)
+    unset = [('unset_optional_scalar', FieldStub(d_t, required=False), None), ('unset_optional_points', FieldStub(d_tp, required=False), None)]
+    if where == 1:
+        fields = fields + unset
+    elif where == 2:
+        fields = unset + fields          # the first per-point field met is an unset one: it cannot size the trajectory
+    h.ctx.named['unset_optional_fields'] = z3.StringVal(['none', 'after the others', 'before the others'][where])
     h.ctx.named['first_point_field_has_no_species'] = z3.BoolVal(order == 0 and empty_species)
 
     class Fs(Model):
@@ -909,6 +948,51 @@ def replay_types(payload):
         TrajectoryStore.active_in_thread = None
         shutil.rmtree(tmp, ignore_errors=True)
     return dict(reproduced=bool(problems), observed=problems[:6], required='values kept with the field type and read back equal')
+
+
+def replay_unset(payload):
+    """Native: a trajectory with an optional field of each of the six shapes explicitly left unset (None) is added and read
+    back (field set given first / last, any hash seed): every such field reads back unset (None, or no species), never numbers."""
+    import os
+    import shutil
+    import tempfile
+    from AEIC.performance.types import ThrustModeValues
+    from AEIC.storage import Dimension as D, Dimensions, FieldMetadata, FieldSet
+    from AEIC.trajectories import TrajectoryStore
+    from AEIC.types import SpeciesValues
+    from contracts.C07 import _mk
+    shapes = dict(o_t=(), o_tp=(D.POINT,), o_ts=(D.SPECIES,), o_tsp=(D.SPECIES, D.POINT), o_tm=(D.THRUST_MODE,), o_tsm=(D.SPECIES, D.THRUST_MODE))
+    problems = []
+    for only in list(shapes) + ['all']:
+        name = 'c03_unset_' + only
+        if not FieldSet.known(name):
+            FieldSet(name, **{k: FieldMetadata(dimensions=Dimensions(D.TRAJECTORY, *v), description='', units='', required=False)
+                              for k, v in shapes.items() if only in (k, 'all')})
+        tmp = tempfile.mkdtemp(prefix='c03u-', dir=os.environ.get('VERIF_SCRATCH'))
+        TrajectoryStore.active_in_thread = None
+        try:
+            t = _mk(0)
+            t.add_fields(FieldSet.from_registry(name))
+            for k in shapes:
+                if only in (k, 'all'):
+                    setattr(t, k, None)
+            p = os.path.join(tmp, 'o.nc')
+            with TrajectoryStore.create(base_file=p) as ts:
+                ts.add(t)
+            TrajectoryStore.active_in_thread = None
+            with TrajectoryStore.open(base_file=p) as ts:
+                r = ts[0]
+                for k in shapes:
+                    if only in (k, 'all'):
+                        v = getattr(r, k)
+                        if not (v is None or (isinstance(v, SpeciesValues) and len(v) == 0)):
+                            problems.append(f'optional field {k} left unset reads back as {v!r}')
+        except Exception as e:   # noqa
+            problems.append(f'trajectory with the optional field(s) {only} left unset: {type(e).__name__}: {e}')
+        finally:
+            TrajectoryStore.active_in_thread = None
+            shutil.rmtree(tmp, ignore_errors=True)
+    return dict(reproduced=bool(problems), observed=problems[:6], required='unset optional fields of every shape can be stored and read back unset')
 
 
 WITNESSES = {
